@@ -220,6 +220,7 @@ func runC01(c *core.Ctx) {
 				}
 				c01Case(c, p, sh, r, caseID)
 			}
+			c01Recycled(c, p, r)
 			c.Obs("pairs_executed", 1)
 		}
 	}
@@ -448,13 +449,14 @@ func c01Case(c *core.Ctx, p *dyn.PairOps, sh c01shape, r *core.Rand, caseID stri
 			w.B.RawAll().Set(i, commonVal(r, A.TypeInfo, B.TypeInfo))
 			w.Expect(i, w.B.RawAt(i))
 		}
-		ss := B.MakeSS(lens)
+		// the outer slice has spare capacity with two more rows behind it
+		ss, ssAll := B.MakeSSHidden(lens, []int{4, 4})
 		var sent [][]dyn.Val
-		for ci := range lens {
+		for ci := 0; ci < ssAll.N(); ci++ {
 			var row []dyn.Val
-			for i := 0; i < lens[ci]; i++ {
-				ss.At(ci).Set(i, mon.Canary(B.TypeInfo, i, 40+ci))
-				row = append(row, ss.At(ci).Get(i))
+			for i := 0; i < ssAll.At(ci).Len(); i++ {
+				ssAll.At(ci).Set(i, mon.Canary(B.TypeInfo, i, 40+ci))
+				row = append(row, ssAll.At(ci).Get(i))
 			}
 			sent = append(sent, row)
 		}
@@ -486,6 +488,14 @@ func c01Case(c *core.Ctx, p *dyn.PairOps, sh c01shape, r *core.Rand, caseID stri
 					}
 				} else if !g.Same(sent[ci][i]) {
 					sp = append(sp, mon.Problem{Kind: "caller-slice", Msg: fmt.Sprintf("output[%d][%d] beyond the part read changed from %v to %v", ci, i, sent[ci][i], g)})
+				}
+			}
+		}
+		for ci := len(lens); ci < ssAll.N(); ci++ { // rows beyond the slice that was passed
+			for i := 0; i < ssAll.At(ci).Len(); i++ {
+				if !ssAll.At(ci).Get(i).Same(sent[ci][i]) {
+					sp = append(sp, mon.Problem{Kind: "caller-slice", Msg: fmt.Sprintf("row %d beyond the %d slices passed (spare capacity of the outer slice) was written", ci, len(lens))})
+					break
 				}
 			}
 		}
@@ -537,6 +547,97 @@ func c01Case(c *core.Ctx, p *dyn.PairOps, sh c01shape, r *core.Rand, caseID stri
 			c.Violate("roundtrip"+pairName+"|panic", caseID, "round trip panicked: "+msg, d)
 		}
 		c.Obs("round_trips", 2)
+	}
+}
+
+// c01Recycled runs the four transfer functions on a buffer that reached its
+// state another way: obtained from a pool, appended to beyond the allocated
+// length, put back and obtained again, and on a buffer grown by Append.
+func c01Recycled(c *core.Ctx, p *dyn.PairOps, r *core.Rand) {
+	A, B := p.A, p.B
+	pairName := "[" + A.Name + "," + B.Name + "]"
+	const ch, l, k = 2, 2, 6
+	for _, how := range []string{"recycled-through-pool", "grown-by-append"} {
+		caseID := fmt.Sprintf("%s-%s/%s", A.Name, B.Name, how)
+		if !c.Want(caseID) {
+			continue
+		}
+		d := map[string]any{"pair": pairName, "buffer": how, "channels": ch}
+		pn, msg := core.Guard(func() {
+			var b dyn.Buf
+			frames := l
+			if how == "recycled-through-pool" {
+				pool := B.PoolAlloc(signal.Allocator{Channels: ch, Length: l, Capacity: k})
+				for round := 0; round < 3; round++ {
+					g := pool.Get()
+					for i := 0; i < 5; i++ {
+						g.AppendSample(B.FromInt(int64(1 + i)))
+					}
+					pool.Put(g)
+				}
+				b = pool.Get()
+			} else {
+				b = B.Alloc(signal.Allocator{Channels: ch, Length: 1, Capacity: 1})
+				b.Append(B.Alloc(signal.Allocator{Channels: ch, Length: 3, Capacity: 3}))
+				frames = 4
+			}
+			c.Eval(4)
+			c.Distinct(core.NewHash().Str(caseID).Sum())
+			if b.Length() != frames || b.Len() != ch*frames {
+				c.Violate("Buffer"+pairName+"|shape|"+how, caseID, fmt.Sprintf("buffer %s reports %v, expected %d frames", how, mon.ShapeOf(b), frames), d)
+				return
+			}
+			// striped write with channels longer than the buffer
+			lens := []int{frames + 3, frames + 1}
+			ss := A.MakeSS(lens)
+			for ci := range lens {
+				for i := 0; i < lens[ci]; i++ {
+					ss.At(ci).Set(i, commonVal(r, A.TypeInfo, B.TypeInfo))
+				}
+			}
+			if got := p.WriteStriped(ss, b); got != frames {
+				c.Violate("WriteStriped"+pairName+"|count|"+how, caseID, fmt.Sprintf("returned %d on a buffer of %d frames (%s)", got, frames, how), d)
+			}
+			for ci := range lens {
+				for i := 0; i < frames; i++ {
+					if !dyn.NumEq(b.Sample(ch*i+ci), ss.At(ci).Get(i)) {
+						c.Violate("WriteStriped"+pairName+"|value|"+how, caseID, fmt.Sprintf("channel %d sample %d holds %v after writing %v (%s)", ci, i, b.Sample(ch*i+ci), ss.At(ci).Get(i), how), d)
+						return
+					}
+				}
+			}
+			// interleaved write of more samples than the buffer holds
+			src := A.MakeSl(ch*frames + 5)
+			for i := 0; i < src.Len(); i++ {
+				src.Set(i, commonVal(r, A.TypeInfo, B.TypeInfo))
+			}
+			if got := p.Write(src, b); got != frames {
+				c.Violate("Write"+pairName+"|count|"+how, caseID, fmt.Sprintf("returned %d on a buffer of %d frames (%s)", got, frames, how), d)
+			}
+			if back := reversePair(A, B); back != nil {
+				out := A.MakeSS([]int{frames + 2, frames + 2})
+				if got := back.ReadStriped(b, out); got != frames {
+					c.Violate("ReadStriped"+pairName+"|count|"+how, caseID, fmt.Sprintf("returned %d on a buffer of %d frames (%s)", got, frames, how), d)
+				}
+				for i := 0; i < ch*frames; i++ {
+					if g := out.At(i % ch).Get(i / ch); !dyn.NumEq(g, src.Get(i)) {
+						c.Violate("ReadStriped"+pairName+"|value|"+how, caseID, fmt.Sprintf("position %d: read %v, wrote %v (%s)", i, g, src.Get(i), how), d)
+						return
+					}
+				}
+				flat := A.MakeSl(ch*frames + 4)
+				if got := back.Read(b, flat); got != frames {
+					c.Violate("Read"+pairName+"|count|"+how, caseID, fmt.Sprintf("returned %d on a buffer of %d frames (%s)", got, frames, how), d)
+				}
+			}
+			if b.Length() != frames || b.Len() != ch*frames {
+				c.Violate("Buffer"+pairName+"|shape|"+how, caseID, fmt.Sprintf("shape changed to %v", mon.ShapeOf(b)), d)
+			}
+		})
+		if pn {
+			c.Violate("transfer"+pairName+"|panic|"+how, caseID, fmt.Sprintf("a transfer on a buffer %s panicked: %s", how, msg), d)
+		}
+		c.Obs("transfers_on_recycled_or_grown_buffers", 1)
 	}
 }
 
